@@ -89,7 +89,7 @@ fn os_obs(s: &OS, inc: &mut Option<String>) -> (ValObs, Clk, Clk) {
     if w.keys().cloned().collect::<Vec<_>>() != members {
         *inc = Some(format!("Orswot iter() members {:?} != read() {:?}", w.keys().collect::<Vec<_>>(), members));
     }
-    for m in 0..nm().max(4) {
+    for m in 0..nm().max(4).max(wide()) {
         let c = s.contains(&m);
         if c.val != members.contains(&m) {
             *inc = Some(format!("Orswot contains({m}).val={} but read()={members:?}", c.val));
@@ -125,9 +125,15 @@ fn os_template(role: u8, rng: &mut Rng) -> Cmd {
 
 fn os_random(rng: &mut Rng) -> Cmd {
     let m = rand_member(rng);
-    let m2 = (m + 1) % nm() as u64;
+    let dom = if wide() > 0 { wide() } else { nm() } as u64;
+    let m2 = (m + 1) % dom;
     let c = rng.below(10);
     let stale = rng.chance(1, 3);
+    if wide() > 0 && (c == 5 || c == 9) && rng.chance(2, 3) {
+        // big batches: 5-8 consecutive members
+        let batch: Vec<u64> = (0..5 + rng.below(4) as u64).map(|i| (m + i) % dom).collect();
+        return if c == 5 { Cmd::new("add_all", batch) } else { Cmd::new("rm_all", batch).src(if rng.chance(1, 2) { "read" } else { "read_ctx" }).stale(stale) };
+    }
     if c < 5 {
         Cmd::new("add", vec![m])
     } else if c == 5 {
@@ -454,7 +460,7 @@ where
         wit.push((Dump::u(*k as u64), Dump::clk(&w)));
         nested.push((Dump::u(*k as u64), Dump::rec(vec![("w", vo.w), ("nested", vo.nested)])));
     }
-    for k in 0..nk().max(3) {
+    for k in 0..nk().max(3).max(wide()) {
         if !keys.iter().any(|(kk, _)| *kk == k) {
             let g = m.get(&k);
             if g.val.is_some() || !g.rm_clock.is_empty() {
